@@ -221,9 +221,14 @@ class MediaQuery(cssutils.util._NewBase):  # cssutils.util.Base):
                 if isinstance(x.value, str):
                     if normalize(x.value) in ('only', 'not'):
                         continue
-                    else:
+                    elif x.type == 'IDENT':
                         # TODO: simplify!
                         self._seq[i] = (mediaType, 'IDENT', None, None)
+                        break
+                    else:
+                        # only expressions so far, e.g. "(min-width: 1px)"
+                        self._seq.insert(i, 'and', 'IDENT')
+                        self._seq.insert(i, mediaType, 'IDENT')
                         break
             else:
                 self._seq.insert(0, mediaType, 'IDENT')
